@@ -59,10 +59,12 @@ func checkC01(c *Ctx) {
 		"evaluator, every other operator constant to a case of its evaluator, each comparison constant to the function of the same relation (the Go comparison token inside is checked) with 不为//= negating; " +
 		"(C01.zero) every float division in the evaluator and in 除 is dominated by a test of the same divisor against 0 whose true edge returns an error; (C01.floor) | is Floor(a/b) and % is a − Floor(a/b)·b on the two operand values " +
 		"(expression DAG match); (C01.short) the truth table of 且/或 extracted from evalLogicCombiner: the right operand is evaluated exactly when the left one does not decide, results equal ∧/∨, non-booleans are errors; " +
-		"(C01.types) arithmetic and ordering assert *Number comma-ok with an error otherwise. NOT decided: IEEE results themselves (delegated to Go's float64), literal->double rounding (C04), structural equality of nested values beyond the rules of C11."
+		"(C01.types) arithmetic and ordering assert *Number comma-ok with an error otherwise. (C01.literal) a numeric literal's value comes from strconv.ParseFloat on every path (no integer parsing / int-to-float conversion). NOT decided: IEEE results themselves (delegated to Go's float64), literal->double rounding (C04), structural equality of nested values beyond the rules of C11."
 	R.Assumptions = []string{"Go float64 arithmetic is IEEE-754 double", "math.Floor is floor"}
 	u := c.Core()
 	u.buildSSA()
+	// the value of a numeric literal (shared with C04): ParseFloat on every path
+	checkNum2Float(c, u, "C01.literal")
 	p := u.Pkgs["pkg/syntax/zh"]
 	info := p.TypesInfo
 	typeConsts := constsWithPrefix(p, "Type")
